@@ -324,13 +324,22 @@ func (s *ReverseSuffixSetSearcher) searchSpan(haystack []byte, from, knownStart 
 // IsMatch checks if the pattern matches using suffix set prefilter.
 // Includes anti-quadratic guard to prevent O(n^2) behavior with many suffix false positives.
 func (s *ReverseSuffixSetSearcher) IsMatch(haystack []byte) bool {
+	return s.IsMatchWithCache(haystack, nil)
+}
+
+// IsMatchWithCache is IsMatch with the reverse DFA cache provided by the caller
+// (the pooled SearchState of the engine); with a nil cache it takes one from the
+// searcher's own pool.
+func (s *ReverseSuffixSetSearcher) IsMatchWithCache(haystack []byte, revCache *lazy.DFACache) bool {
 	if len(haystack) == 0 {
 		return false
 	}
 
-	// Acquire cache once for the entire candidate loop
-	revCache := s.revCachePool.Get().(*lazy.DFACache)
-	defer s.revCachePool.Put(revCache)
+	if revCache == nil {
+		// Acquire cache once for the entire candidate loop
+		revCache = s.revCachePool.Get().(*lazy.DFACache)
+		defer s.revCachePool.Put(revCache)
+	}
 
 	start := 0
 	minStart := 0 // Anti-quadratic guard for reverse scans
